@@ -155,13 +155,19 @@ Definition delta_i16 (d : Z) : option Z :=
 
 Definition slice (l : list pair) (a n : nat) : list pair := firstn n (skipn a l).
 
-Record Rows := mkRows { r_end : list Z; r_start : list Z; r_delta : list Z; r_roff : list Z; r_gids : list Z }.
+(* one row per segment: (start_code, end_code, id_delta, id_range_offset) — the Rust code pushes to
+   four vectors in lock step; the model keeps the rows together and projects at the end *)
+Definition Row := (Z * Z * Z * Z)%type.
+Definition row_start (r : Row) : Z := fst (fst (fst r)).
+Definition row_end (r : Row) : Z := snd (fst (fst r)).
+Definition row_delta (r : Row) : Z := snd (fst r).
+Definition row_roff (r : Row) : Z := snd r.
 
 (* the `for (i, segment) in segments.into_iter().enumerate()` loop of create_format_4;
-   cur_n = glyph_ids.len() *)
-Fixpoint f4_loop (ms : list pair) (n_segments i cur_n : nat) (segs : list Seg) : option Rows :=
+   cur_n = glyph_ids.len(); result = (rows, glyph ids appended from here on) *)
+Fixpoint f4_loop (ms : list pair) (n_segments i cur_n : nat) (segs : list Seg) : option (list Row * list Z) :=
   match segs with
-  | [] => Some (mkRows [] [] [] [] [])
+  | [] => Some ([], [])
   | s :: tl =>
       do st <- nth_error ms (start_ix s) ;;                   (* mappings[segment.start_ix] *)
       do en <- nth_error ms (end_ix s) ;;
@@ -171,17 +177,18 @@ Fixpoint f4_loop (ms : list pair) (n_segments i cur_n : nat) (segs : list Seg) :
       | Some d =>
           do d16 <- delta_i16 d ;;
           do r <- f4_loop ms n_segments (S i) cur_n tl ;;
-          Some (mkRows (ec :: r_end r) (sc :: r_start r) (d16 :: r_delta r) (0 :: r_roff r) (r_gids r))
+          Some ((sc, ec, d16, 0) :: fst r, snd r)
       | None =>
+          if Nat.ltb n_segments i then None else                (* usize subtraction *)
           let n_following := (n_segments - i)%nat in
           do ro <- chk_u 16 (Z.of_nat (n_following + cur_n) * 2) ;;
           if Nat.ltb (end_ix s) (start_ix s) then None          (* slice index panic *)
           else if Nat.leb (length ms) (end_ix s) then None
           else
           let ids := map snd (slice ms (start_ix s) (end_ix s - start_ix s + 1)) in
-          if negb (forallb (in_u 16) ids) then None else
+          if negb (forallb (in_u 16) ids) then None else        (* expect("checked before now") *)
           do r <- f4_loop ms n_segments (S i) (cur_n + length ids) tl ;;
-          Some (mkRows (ec :: r_end r) (sc :: r_start r) (0 :: r_delta r) (ro :: r_roff r) (ids ++ r_gids r))
+          Some ((sc, ec, 0, ro) :: fst r, ids ++ snd r)
       end
   end.
 
@@ -194,9 +201,10 @@ Definition create_format_4 (sorted : list pair) : option (option T4) :=
   | _ =>
       let n_segments := S (length segs) in
       do r <- f4_loop sorted n_segments 0 0 segs ;;
+      let rows := fst r ++ [(65535, 65535, 1, 0)] in              (* the final segment *)
       Some (Some (mkT4 (Z.of_nat n_segments * 2)
-                       (r_end r ++ [65535]) (r_start r ++ [65535])
-                       (r_delta r ++ [1]) (r_roff r ++ [0]) (r_gids r)))
+                       (map row_end rows) (map row_start rows)
+                       (map row_delta rows) (map row_roff rows) (snd r)))
   end.
 
 (* create_format_12 (called with strictly ascending char codes — from_mappings has removed
